@@ -216,7 +216,7 @@ impl Store {
         version: &VersionVec,
     ) -> Option<&Access> {
         match &self.entries[operation.obj.index] {
-            Entry::Arc(entry) => entry.last_dependent_access(operation.action.into()),
+            Entry::Arc(entry) => entry.last_dependent_access(operation.action.into(), version),
             Entry::Atomic(entry) => {
                 entry.last_dependent_access(operation.action.into(), version)
             }
@@ -236,6 +236,7 @@ impl Store {
     /// into `version`.
     pub(super) fn join_dependent_accesses(&self, operation: Operation, version: &mut VersionVec) {
         match &self.entries[operation.obj.index] {
+            Entry::Arc(entry) => entry.join_dependent_accesses(operation.action.into(), version),
             Entry::Atomic(entry) => {
                 entry.join_dependent_accesses(operation.action.into(), version)
             }
@@ -256,7 +257,9 @@ impl Store {
         dpor_vv: &VersionVec,
     ) {
         match &mut self.entries[operation.obj.index] {
-            Entry::Arc(entry) => entry.set_last_access(operation.action.into(), path_id, dpor_vv),
+            Entry::Arc(entry) => {
+                entry.set_last_access(operation.action.into(), thread_id, path_id, dpor_vv)
+            }
             Entry::Atomic(entry) => {
                 entry.set_last_access(operation.action.into(), thread_id, path_id, dpor_vv)
             }
